@@ -86,10 +86,10 @@ def counter_bounded(func: FuncInfo, loop: ast.While):
     if not counters:
         return False, "the incremented variable is not a counter (not initialised to a number before the loop, or written elsewhere in the loop)"
 
-    def cmp_bounds(test, allow_ops, negate=False):
+    def cmp_bounds(test, allow_ops, split_and=True):
         """counter <op> bound comparisons that hold as a conjunct of test"""
         out = []
-        conj = test.values if isinstance(test, ast.BoolOp) and isinstance(test.op, ast.And) else [test]
+        conj = test.values if split_and and isinstance(test, ast.BoolOp) and isinstance(test.op, ast.And) else [test]
         for t in conj:
             if isinstance(t, ast.Compare) and len(t.ops) == 1:
                 l, op, r = t.left, t.ops[0], t.comparators[0]
@@ -108,7 +108,7 @@ def counter_bounded(func: FuncInfo, loop: ast.While):
             # `if counter > bound: raise` — also accept a disjunct of an `or`
             tests = st.test.values if isinstance(st.test, ast.BoolOp) and isinstance(st.test.op, ast.Or) else [st.test]
             for t in tests:
-                if exits and cmp_bounds(t, (ast.Gt, ast.GtE, ast.Eq)):
+                if exits and cmp_bounds(t, (ast.Gt, ast.GtE, ast.Eq), split_and=False):
                     return True, "unconditional guard in the body exits when the counter passes the bound"
         if any(isinstance(n, ast.Continue) for n in ast.walk(st)):
             break
